@@ -192,6 +192,20 @@ SNIPPETS = {
     "define_malformed": '<i tal:define="1x 2">a</i>',
     "define_second_part": '<i tal:define="ok 1; 2x 3">a</i>',
     "define_after_escape": '<i tal:define="ok \'a;;b\'; 2x 3">a</i>',
+    "define_blank": '<i tal:define=" ">a</i>',
+    "define_empty": '<i tal:define="">a</i>',
+    "define_blank_lines": '<i tal:define="\n    ">a</i>',
+    "attributes_blank": '<i tal:attributes=" ">a</i>',
+    "data_unknown_tal": ('<i data-tal-contnt="1">a</i>',
+                         {"enable_data_attributes": True}),
+    "data_unknown_i18n": ('<i class="c" data-i18n-translat="">a</i>',
+                          {"enable_data_attributes": True}),
+    "data_unknown_metal": ('<i data-metal-use-makro="m">a</i>',
+                           {"enable_data_attributes": True}),
+    "data_define_malformed": ('<i data-tal-define="ok 1; 2x 3">a</i>',
+                              {"enable_data_attributes": True}),
+    "data_bad_expression": ('<i data-tal-content="a +">a</i>',
+                            {"enable_data_attributes": True}),
     "repeat_no_expr": '<i tal:repeat="x">a</i>',
     "repeat_two_parts": '<i tal:repeat="x (1,); y (2,)">a</i>',
     "repeat_tuple_unclosed": '<i tal:repeat="(a, b ((1, 2),)">a</i>',
@@ -257,6 +271,8 @@ class StmtErrors(Part):
     def build(self, case):
         nodes = copy.deepcopy(case["nodes"])
         snippet = SNIPPETS[case["kind"]]
+        if isinstance(snippet, tuple):
+            snippet = snippet[0]
         i = case["pos"] % (len(nodes) + 1)
         nodes.insert(i, ["raw", case["lead"]])
         nodes.insert(i + 1, ["raw", snippet])
@@ -284,7 +300,9 @@ class StmtErrors(Part):
         src, soff, snip = self.build(case)
         detail = {"source": src, "kind": case["kind"], "snippet": snip,
                   "snippet_offset": soff}
-        o = run(PageTemplate, src)
+        cfg = SNIPPETS[case["kind"]][1] if isinstance(
+            SNIPPETS[case["kind"]], tuple) else {}
+        o = run(PageTemplate, src, **cfg)
         if o.ok:
             return Mismatch("stmt:accepted (%s)" % case["kind"], detail)
         if not isinstance(o.exc, TemplateError):
